@@ -601,7 +601,20 @@ class Check:
             v = out.get(n, ('MISSING', ''))
             if v[0] in ('FAIL', 'PANIC'):
                 # the real build violates the harness assertion on this input although the
-                # encoding predicted a pass: report it (ground truth), and flag the encoder
+                # encoding predicted a pass: report it (ground truth), and flag the encoder -- provided it
+                # reproduces: two more native runs of the same case must fail too (a measurement that depends on
+                # GC timing or machine load is not an observation of the property failing)
+                again = []
+                smp = pool[[c_[0] for c_ in cases].index(n)]
+                for _ in range(2):
+                    try:
+                        o2 = native_replay([(n, script, call)], pkgdir=smp.get('pkgdir', '.'), scale_depth=smp.get('scale_depth'))
+                        again.append(o2.get(n, ('MISSING', ''))[0])
+                    except Exception as e:
+                        again.append('ERROR')
+                if any(a not in ('FAIL', 'PANIC') for a in again):
+                    self.notes.append('native failure did not reproduce (%s then %s): not reported, on %s' % (v, again, call[:200]))
+                    continue
                 self.notes.append('encoder predicted PASS but native %s on %s' % (v, call[:200]))
                 self._report({'kind': 'assert', 'what': 'native-only ' + v[1], 'pos': '', 'call': call,
                               'script': script, 'job': jobof.get(n, 'sample'), 'native': v[0] + ' ' + v[1]})
